@@ -147,7 +147,8 @@ def flat_universe():
 
 # Tests appended to a scratch copy of the shipped suite (selections prefixed "ext:"): the shipped tests only ever take
 # each object's state from a different parent; these add a parent that provides states of TWO objects to one dependant
-# (a two-object dependency), a chain on top of it, and a three-vm test mixing two-object, one-object and direct setup.
+# (a two-object dependency), a chain on top of it, a three-vm test mixing two-object, one-object and direct setup, and a
+# clone chain three tests deep (tutorial_gui.* -> implicit_both -> xt_finale2 -> xt_deep; the shipped suite stops at two).
 EXTRA_TESTS = """
     - xt_pair:
         vms = vm1 vm2
@@ -174,6 +175,33 @@ EXTRA_TESTS = """
         get_state_images_vm2 = pairsetup
         get_state_vms_vm3 = ready
         type = tutorial_step_3
+    - xt_finale2:
+        vms = vm1 vm2 vm3
+        roles = temporary multisetup permanent
+        temporary = vm1
+        multisetup = vm2
+        permanent = vm3
+        get_images_vm1 = connect
+        get_state_images_vm1 = connect
+        only_vm1 = qemu_kvm_centos
+        get_state_vms_vm3 = ready
+        type = tutorial_step_get
+        host_dhcp_service = yes
+        get_images_vm2 = tutorial_get.implicit_both
+        set_state_images_vm2 = finale2
+    - xt_deep:
+        vms = vm1 vm2 vm3
+        roles = temporary multisetup permanent
+        temporary = vm1
+        multisetup = vm2
+        permanent = vm3
+        get_images_vm1 = connect
+        get_state_images_vm1 = connect
+        only_vm1 = qemu_kvm_centos
+        get_state_vms_vm3 = ready
+        type = tutorial_step_get
+        host_dhcp_service = yes
+        get_images_vm2 = xt_finale2
 """
 
 
